@@ -56,6 +56,7 @@ func main() {
 	if err != nil {
 		core.Fatalf("%v", err)
 	}
+	core.RemoveAtExit(work)
 	defer os.RemoveAll(work)
 	bin = cli.Build(work)
 
